@@ -4,6 +4,7 @@
   all three raise modes and all exempt pattern lists (strings of any length).
 -/
 import NcVerif.Proofs.RpcError
+import NcVerif.Model.ReplyDoc
 namespace NcVerif.C06
 open NcVerif NcVerif.RpcError
 
@@ -76,5 +77,48 @@ example : raises .all (mkPatterns []) ⟨false, [w1, w1]⟩ = some (.aggregate [
 example : raises .all (mkPatterns ["*vlan with the same name exists*".toList]) ⟨false, [e2]⟩ = none := by decide
 example : Matches "*VLAN with the same name exists*".toList (textOf e2.message) := by
   refine ⟨[], " (x)".toList, ?_⟩; decide
+
+/-! ## From the reply DOCUMENT (Model/ReplyDoc: what `RPCReply.parse` / `RPCError.__init__` extract from the tree) -/
+
+section Doc
+open NcVerif.XmlDoc NcVerif.ReplyDoc
+
+/-- For every reply document without an `<ok/>` child: `ok` iff NO element of the document — the root
+    itself or any descendant, at any depth — is an `rpc-error`. -/
+theorem doc_ok_iff_no_rpc_error (root : XNode) (hno : (kids root).any (named "ok") = false) :
+    ok (ofDoc root) = true ↔ ∀ d ∈ desc root, named "rpc-error" d = false := by
+  unfold ok errors ofDoc
+  simp only [hno, Bool.false_eq_true, if_false, List.isEmpty_iff, List.map_eq_nil_iff]
+  unfold errorElems
+  rw [List.filter_eq_nil_iff]
+  constructor
+  · intro h d hd; simpa using h d hd
+  · intro h d hd; simpa using h d hd
+
+/-- The error list has one entry per `rpc-error` element, in document order, each built from that
+    element's own children. -/
+theorem doc_errors_mirror (root : XNode) (hno : (kids root).any (named "ok") = false) :
+    errors (ofDoc root) = (errorElems root).map errOf ∧ (errorElems root).Sublist (desc root) := by
+  refine ⟨?_, List.filter_sublist⟩
+  unfold errors ofDoc; simp [hno]
+
+/-- A field that occurs once in an `rpc-error` is reported with exactly that child's text. -/
+theorem doc_field_mirrors_child (e c : XNode) (f : String) (h : (kids e).filter (named f) = [c]) :
+    textField e f = leadText c := by
+  unfold textField lastChild; rw [h]; rfl
+
+/-- The decision on the document is the decision on the extracted list (composition with `raise_iff`). -/
+theorem doc_raise_iff (mode : Mode) (pats : List Str) (root : XNode) (hno : (kids root).any (named "ok") = false) :
+    (raises mode (mkPatterns pats) (ofDoc root)).isSome = true ↔
+      ∃ e ∈ (errorElems root).map errOf, isExempt (mkPatterns pats) e.message = false ∧
+        (mode = .all ∨ (mode = .errors ∧ ∃ e' ∈ (errorElems root).map errOf,
+          isExempt (mkPatterns pats) e'.message = false ∧ e'.severity = some sevError)) := by
+  have hr : ofDoc root = ⟨false, (errorElems root).map errOf⟩ := by unfold ofDoc; rw [hno]
+  rw [hr]; exact raise_iff mode pats ((errorElems root).map errOf)
+
+example : (errors (ofDoc (.elem "rpc-reply".toList [] [.elem "data".toList [] [.elem "rpc-error".toList []
+    [.elem "error-severity".toList [] [.text "warning".toList], .elem "error-message".toList [] [.text "m1".toList],
+     .elem "error-message".toList [] [.text "m2".toList]]]]))).map (·.message) = [some "m2".toList] := by decide +kernel
+end Doc
 
 end NcVerif.C06
